@@ -13,8 +13,8 @@ CLAIM = {
             "the assembler's `BTQ $bit` by tools/tx -> Gen/EncFlags.v), the state-stack bound. Theorems: equal parameters => equal Marshal "
             "result for all types, values, option words (C12_exec_agree); the bit columns agree and are the documented bits; integer "
             "primitives agree on all 2^64 values (native fastint.h model = strconv, via C19's u64toa_exact); floats agree except +-0. "
-            "Refuted with witnesses replayed on the real code: -0.0 (C12_f64_zero_refuted) and the state-stack bound (C12_stack_bound_refuted); "
-            "the weaker C12_exec_agree_partial (JIT with those two components repaired = interpreter) is proved. Tie: identical "
+            "-0.0 (interpreter printed 0) was refuted, repaired by fix b09723f and is now the theorem C12_f64_negzero_agree. Refuted with a witness replayed on the real code: the state-stack bound (C12_stack_bound_refuted); "
+            "the weaker C12_exec_agree_partial (JIT with the interpreter's stack bound = interpreter) is proved. Tie: identical "
             "(type, value, option word) cases in a JIT process and a SONIC_ENCODER_USE_VM process, both against the model and against each other.",
     "note": "Trusted: Coq kernel, extraction, translator (flag-bit columns, stack bounds), Go harness. The generated x86 code itself is "
             "reached only by running it; float digits are strconv's (C19).",
@@ -87,6 +87,7 @@ def run(ctx):
             fl = int(key[2:])
             rv = vr.get(key)
             sortk = bool(fl & 1)
+            mm = bool(feats & {'map>=2', 'map>=12', 'map>=41'})
             for i, b in enumerate(FLAGBITS):
                 if fl >> i & 1:
                     dist["flag_bit_set"][b] += 1
@@ -102,11 +103,9 @@ def run(ctx):
             if not same:
                 st["differ"] += 1
                 kf = None
-                if "negzero" in feats:
-                    kf = "KF-C12-negzero"
-                elif ej and ev and ej[0] != ev[0] and "deep" in feats:
+                if ej and ev and ej[0] != ev[0] and "deep" in feats:
                     kf = "KF-C12-stack-off-by-one"      # the model with 4096 frames succeeds, with 4095 fails
-                explained = model and ej is not None and ev is not None and L.same_result(ej[:-1], rj, sortk) and L.same_result(ev[:-1], rv, sortk)
+                explained = model and ej is not None and ev is not None and L.same_result(ej[:-1], rj, sortk, mm) and L.same_result(ev[:-1], rv, sortk, mm)
                 if kf and kf in known and explained:
                     st["known"] += 1
                     seen_known.setdefault(kf, cid)
@@ -115,13 +114,12 @@ def run(ctx):
                                  dict(L.case_lines(d, cid), flags=fl, jit=rj[:2], vm=(rv or ["missing"])[:2], features=sorted(feats))))
             # tie of both executors to the model
             if cs:
-                st["cache_sensitive"] += 1
-                continue
+                st["cache_sensitive"] += 1      # tied too since fix ea86c56 (one cache per pv)
             for who, e, r in (("jit", ej, rj), ("vm", ev, rv)):
                 if e is None or r is None:
                     continue
                 st["tie"] += 1
-                if not L.same_result(e[:-1], r, sortk):
+                if not L.same_result(e[:-1], r, sortk, mm):
                     st["tie_bad"] += 1
                     viol.append(("tie", cid, "Marshal (%s, option word %d) differs from the model: impl %s / model %s" % (who, fl, L.show(r), L.show(e)),
                                  dict(L.case_lines(d, cid), flags=fl, backend=who, impl=r[:2], model=e[:2], features=sorted(feats))))
